@@ -237,6 +237,10 @@ def descriptions():
     yield dict(name='m', ports=['\\a.b ', 'y'], stmts=[
         ('decl', 'input', None, ['\\a.b ']), ('decl', 'output', None, ['y']), ('decl', 'wire', (0, 0), ['n']),
         ('inst', 'INV', '\\u[1] ', [('A', '\\a.b '), ('ZN', ('n', 0))]), ('inst', 'INV', 'v', [('A', 'n'), ('ZN', 'y')])])
+    # a one-bit bus driven under its bare name and read with its index (and the other way round); an escaped identifier that ends with a tab
+    yield dict(name='m', ports=['a', 'y'], stmts=[
+        ('decl', 'input', (0, 0), ['a']), ('decl', 'output', None, ['y']), ('decl', 'wire', (5, 5), ['w']), ('decl', 'wire', (2, 2), ['v']),
+        ('inst', 'INV', '\\g.1\t', [('A', 'a'), ('ZN', 'w')]), ('inst', 'INV', 'h', [('A', ('w', 5)), ('ZN', ('v', 2))]), ('inst', 'INV', 'k', [('A', 'v'), ('ZN', 'y')])])
     yield dict(name='m', ports=['p', 'o'], stmts=[
         ('decl', 'inout', None, ['p']), ('decl', 'output', (3, 0), ['o']), ('assign', 'o', ('const', "4'd10")),
         ('inst', 'INV', 'i', [('A', 'p'), ('ZN', None)])])
